@@ -1021,13 +1021,15 @@ fn run_case(env: &mut Env<'_>, c: &TCase) -> Value {
         }
         // where the history is held, a record that validates attests exactly the original segment
         if btr_holder == "ok" && !btr_same {
-            findings.push(json!({"key": format!("{tkey}:validate_btr"),
-                "detail": format!("BTR over ({},{}] with {} {} [{}] validates against the registered history", c.from, c.to, c.field, c.variant, c.idx)}));
+            let bkey = if tkey.starts_with("transport:") { tkey.clone() } else { format!("transport:btr.payload.{tkey}") };
+            findings.push(json!({"key": format!("{bkey}:validate_btr"),
+                "detail": format!("BTR over ({},{}] with {} {} {} [{}] validates against the registered history although it does not attest the original segment", c.from, c.to, c.part, c.field, c.variant, c.idx)}));
         }
         // and on any store: Ok means every payload entry IS the stored entry
         for (site, svc, v) in [("importer_before", &imp0, &btr_before), ("importer_after", &imp, &btr_after)] {
             if v == "ok" && rec.payload.entries.iter().any(|e| svc.entry(rec.worldline_id, e.worldline_tick).ok().as_ref() != Some(e)) {
-                findings.push(json!({"key": format!("{tkey}:validate_btr"), "detail": format!("{site}: the record validates but a payload entry is not the stored entry")}));
+                findings.push(json!({"key": "transport:btr.validates_unheld_entry:validate_btr",
+                    "detail": format!("{site} (importer {}/{}, range ({},{}], tamper {} {} {}): the record validates although a payload entry is not the entry this store holds at that tick", c.a, c.f, c.from, c.to, c.part, c.field, c.variant)}));
             }
         }
     }
